@@ -20,7 +20,7 @@ def run(name, tier, seed):
     J = [("all", dict(base, Depth=4 if q else 5, Ops=tla_set(ALL))),
          ("sequences", dict(base, Depth=5 if q else 6, Ops=tla_set(["new_module", "import", "own", "export_decl", "stem"]), MaxMods=1)),
          ("modules", dict(base, Depth=5 if q else 6, Ops=tla_set(["new_module", "make_unit", "new_unit", "export_module"])))]
-    tdir = os.path.join(vlib.BUILD, "traces")
+    tdir = vlib.trace_dir()
     os.makedirs(tdir, exist_ok=True)
     tp = os.path.join(tdir, "%s-%s-%d.ndjson" % (name, tier, seed))
     vlib.record_trace(exe, ["record", "--seed", seed, "--runs", 4 if q else 20, "--len", 60 if q else 120], tp)
